@@ -8,6 +8,7 @@ import RosedVerif.Model.CompositeLemmas
 import RosedVerif.Spec.CompositeLemmas
 import RosedVerif.Model.Totality2
 import RosedVerif.Model.BridgeComposite
+import RosedVerif.Model.NoLossModel
 namespace RosedVerif.Props
 open RosedVerif
 
@@ -119,5 +120,67 @@ theorem C15_code_points {V : List (List Int)} (hV : VocabStable V = true)
         (clusters cxA ((defParaLines cxB (maxLineLen (defs.map (·.1))) item.1 rc)[i]).flatten).drop
           (maxLineLen (defs.map (·.1)) + 6) = rc.getD i [] :=
   insertDefTableOpts_bridge_C15 hV hsp hhy hspTail toks ht o0 pos defs hd1 hd2 width o hS hP hne
+
+open RosedVerif.Spec RosedVerif.Spec.NoLoss RosedVerif.NoLossModel RosedVerif.WrapRefine
+
+/-- no term or definition word is lost, paragraphs in input order: paragraph j has defs[j]'s term verbatim at offset 2 of its first line and the definition's words, in order, after column T + 6; a definition without a word still has its term line -/
+theorem C15_no_loss {α : Type} (tk : Spec.Toks α) (hsp : tk.ws tk.sp = true)
+    (hhy : tk.ws tk.hy = false)
+    (defs : List (List α × List α))
+    (w : Int) :
+    (defTable tk defs w).length = defs.length ∧
+    ∀ (j : Nat) (hj : j < defs.length) (hj' : j < (defTable tk defs w).length),
+      ∃ h0 : 0 < ((defTable tk defs w)[j]).length,
+        ((((defTable tk defs w)[j])[0]).drop 2).take defs[j].1.length = defs[j].1 ∧
+        (((defTable tk defs w)[j]).map (List.drop (termWidth defs + 6))).flatMap (words tk) =
+          units tk (defWidth (termWidth defs) w) defs[j].2 ∧
+        (words tk defs[j].2 = [] → ((defTable tk defs w)[j]).length = 1) :=
+  C15_no_loss_m tk hsp hhy defs w
+
+/-- the MODEL of InsertDefinitionsTableOpts at cluster level inserts exactly the specification's table (`Spec.defTable`), joined by the separators -/
+theorem C15_model_spec {α : Type} [DecidableEq α] (cx : Ctx α) (htriv : ∀ s, cx.ends s = List.range' 1 s.length)
+    (hsp : cx.isSpace cx.sp = true)
+    (ed : Editor α)
+    (pos : Int)
+    (defs : List (List α × List α))
+    (width : Int)
+    (o : Options α)
+    (hne : defs ≠ []) :
+    ed.insertDefTableOpts cx pos defs width o =
+      ed.insert cx pos
+        (joinWith (o.withDefaults cx).paraSep
+          ((defTable (toks cx)
+            (defs.map fun d => (d.1, replaceAll' cx d.2 (o.withDefaults cx).lineSep)) width).map
+            (joinWith (o.withDefaults cx).lineSep)) ++
+          (if (o.withDefaults cx).noTrailing = true then [] else (o.withDefaults cx).lineSep)) :=
+  C15_model_spec_m cx htriv hsp ed pos defs width o hne
+
+/-- … hence no term or definition word is lost by the model -/
+theorem C15_model_no_loss {α : Type} [DecidableEq α] (cx : Ctx α) (htriv : ∀ s, cx.ends s = List.range' 1 s.length)
+    (hsp : cx.isSpace cx.sp = true)
+    (hhy : cx.isSpace cx.hy = false)
+    (ed : Editor α)
+    (pos : Int)
+    (defs : List (List α × List α))
+    (width : Int)
+    (o : Options α)
+    (hne : defs ≠ []) :
+    ∃ paras : List (List (List α)),
+      ed.insertDefTableOpts cx pos defs width o =
+        ed.insert cx pos
+          (joinWith (o.withDefaults cx).paraSep (paras.map (joinWith (o.withDefaults cx).lineSep)) ++
+            (if (o.withDefaults cx).noTrailing = true then [] else (o.withDefaults cx).lineSep)) ∧
+      paras.length = defs.length ∧
+      ∀ (j : Nat) (hj : j < defs.length) (hj' : j < paras.length),
+        let T := maxLineLen (defs.map (·.1))
+        let W := defWidth T width
+        let defn := replaceAll' cx defs[j].2 (o.withDefaults cx).lineSep
+        ∃ h0 : 0 < (paras[j]).length,
+          (((paras[j])[0]).drop 2).take defs[j].1.length = defs[j].1 ∧
+          ((paras[j]).map (List.drop (T + 6))).flatMap (words (toks cx)) = units (toks cx) W defn ∧
+          (HyOK (toks cx) W defn →
+            dehyphen (toks cx) W ((paras[j]).map (List.drop (T + 6))) = words (toks cx) defn) ∧
+          (words (toks cx) defn = [] → (paras[j]).length = 1) :=
+  C15_model_no_loss_m cx htriv hsp hhy ed pos defs width o hne
 
 end RosedVerif.Props
